@@ -352,6 +352,33 @@ def base_atom(a: str) -> tuple:
     return a, True
 
 
+_PLAIN_CALLS = {"abs", "len", "all", "any", "isinstance", "min", "max", "sum", "float", "int", "list", "tuple", "np.any", "np.all",
+                "np.array", "np.abs", "zip", "range", "enumerate", "bool", "round", "np.isnan", "np.isinf", "np.isfinite", "set",
+                "sorted", "os.cpu_count", "str", "type"}
+
+
+def require_plain_atoms(f) -> None:
+    """Every atom of a formula must be an expression over names, attributes, constants, comparisons, arithmetic, subscripts,
+    comprehensions and a fixed set of pure builtins.  An atom containing any other call (a helper, a method of an object the
+    evaluator did not model) means the evaluator did not understand the code: FrmUnknown, never a verdict."""
+    for a in atoms_of(f):
+        try:
+            e = ast.parse(a, mode="eval").body
+        except SyntaxError:
+            raise FrmUnknown(f"atom `{a[:60]}` is not an expression")
+        for n in ast.walk(e):
+            if isinstance(n, ast.Call):
+                d = None
+                if isinstance(n.func, ast.Name):
+                    d = n.func.id
+                elif isinstance(n.func, ast.Attribute) and isinstance(n.func.value, ast.Name):
+                    d = f"{n.func.value.id}.{n.func.attr}"
+                if d not in _PLAIN_CALLS:
+                    raise FrmUnknown(f"the condition `{a[:70]}` goes through `{ast.unparse(n.func)[:40]}(..)`, which is not modelled")
+            elif isinstance(n, (ast.Lambda, ast.NamedExpr, ast.Await, ast.Yield, ast.YieldFrom, ast.Starred)):
+                raise FrmUnknown(f"the condition `{a[:70]}` uses a construct that is not modelled")
+
+
 def atoms_of(f, acc=None) -> set:
     acc = set() if acc is None else acc
     if f[0] == "atom":
